@@ -9,6 +9,8 @@
 
 #include "v_ghost.h"
 
+#include "v_nocheck_push.h"
+
 /* effective limits the core can know about */
 static inline size_t v_eff_mtu(void) { return g_cfg.mtu_fail ? 1500u : g_cfg.mtu; }
 
@@ -241,6 +243,22 @@ static inline void v_frame_check(const uint8_t *f, size_t len) {
         V_REQUIRE("C03.hello.current-mapper: Discover's real source", v_mac_eq(f + 34, g_req.real_src.a));
         V_REQUIRE("C03.hello.apparent-mapper: Discover's Ethernet source", v_mac_eq(f + 40, g_req.eth_src.a));
     }
+    if (g_req.kind == V_K_QRESP) {
+        uint32_t n_exp = g_req.obs_n > g_req.obs_cap ? g_req.obs_cap : g_req.obs_n;
+        uint16_t w = v_be16(f + 32);
+        V_REQUIRE("C07.resp.count: lists min(observations, per-frame capacity) descriptors", (uint32_t)(w & 0x7FFFu) == n_exp);
+        V_REQUIRE("C07.resp.more-flag: says that more remain exactly when they do not fit",
+                  ((w & 0x8000u) != 0) == (g_req.obs_n > g_req.obs_cap));
+        if (g_j < n_exp && g_j < 8) {
+            size_t o = 34 + 20 * g_j;
+            struct v_obs e = g_req.obs[g_j];      /* by value: one array select instead of pointers with symbolic offsets */
+            V_REQUIRE("C07.resp.descriptor-type: each listed observation as received (type)",
+                      f[o] == e.type_be[0] && f[o + 1] == e.type_be[1]);
+            V_REQUIRE("C07.resp.descriptor-real: each listed observation as received (real source)", v_mac_eq_at(f, o + 2, e.real.a));
+            V_REQUIRE("C07.resp.descriptor-src: each listed observation as received (Ethernet source)", v_mac_eq_at(f, o + 8, e.src.a));
+            V_REQUIRE("C07.resp.descriptor-dst: each listed observation as received (Ethernet destination)", v_mac_eq_at(f, o + 14, e.dst.a));
+        }
+    }
     if (g_req.kind == V_K_QRESP || g_req.kind == V_K_QLTV) {
         V_REQUIRE("C07.resp.opcode", op == (g_req.kind == V_K_QRESP ? 0x07 : 0x0C));
         V_REQUIRE("C07.resp.single: one response per request", g_led.tx_attempts == g_req.tx_base);
@@ -252,5 +270,6 @@ static inline void v_frame_check(const uint8_t *f, size_t len) {
                           : (v_mac_eq(f, g_req.real_src.a) && v_mac_eq(f + 18, g_req.real_src.a)));
     }
 }
+#include "v_nocheck_pop.h"
 
 #endif
